@@ -649,6 +649,20 @@ func (env *SpecEnv) evalCall(x *SExpr) (Val, error) {
 				return Val{}, err
 			}
 			return env.same(a, b)
+		case "disjoint":
+			// two slices do not share a backing array
+			a, err := env.eval(args[0])
+			if err != nil {
+				return Val{}, err
+			}
+			b, err := env.eval(args[1])
+			if err != nil {
+				return Val{}, err
+			}
+			if kindOf(a.T) != kSlice || kindOf(b.T) != kSlice {
+				return Val{}, fmt.Errorf("disjoint() of non-slices")
+			}
+			return Val{T: tBool, S: mkNot(mkEq(a.sBase(), b.sBase()))}, nil
 		case "fresh":
 			a, err := env.eval(args[0])
 			if err != nil {
@@ -934,7 +948,8 @@ func (env *SpecEnv) typeClause(x *SExpr) (types.Type, bool) {
 	return nil, false
 }
 
-func (e *Exec) keysOfModClause(callee *ssa.Function, m Clause) []string {
+func (e *Exec) keysOfModClause(callee *ssa.Function, m Clause, argT ...types.Type) []string {
+	e.argTypes = argT
 	// static approximation used for loop havoc: derive keys from the field name / type
 	x := m.E
 	if x.Op == "call" && x.Args[0].Op == "id" && x.Args[0].Tok == "type" && len(x.Args) == 2 && callee != nil && pkgOf(callee) != nil {
@@ -957,7 +972,11 @@ func (e *Exec) keysOfModClause(callee *ssa.Function, m Clause) []string {
 		if !ok {
 			return []string{"*"}
 		}
-		obj, path, _ := types.LookupFieldOrMethod(T, true, callee.Pkg.Pkg, x.Tok)
+		var cpkg *types.Package
+		if callee != nil && callee.Pkg != nil {
+			cpkg = callee.Pkg.Pkg
+		}
+		obj, path, _ := types.LookupFieldOrMethod(T, true, cpkg, x.Tok)
 		fv, ok := obj.(*types.Var)
 		if !ok || len(path) != 1 {
 			return []string{"*"}
@@ -984,6 +1003,23 @@ func (e *Exec) keysOfModClause(callee *ssa.Function, m Clause) []string {
 
 func (e *Exec) staticTypeOf(fn *ssa.Function, x *SExpr) types.Type {
 	if fn == nil {
+		// interface-method / function-type contract: recv|fn = argTypes[0], aN = argTypes[N]
+		if x.Op == "id" && len(e.argTypes) > 0 {
+			if x.Tok == "recv" || x.Tok == "fn" {
+				return e.argTypes[0]
+			}
+			if strings.HasPrefix(x.Tok, "a") {
+				var n int
+				if _, err := fmt.Sscanf(x.Tok, "a%d", &n); err == nil {
+					if e.argFT {
+						n++
+					}
+					if n < len(e.argTypes) {
+						return e.argTypes[n]
+					}
+				}
+			}
+		}
 		return nil
 	}
 	switch x.Op {
